@@ -161,6 +161,18 @@ def gcm_wrapper(node, run):
         yield
 
 
+@_contextmanager
+def gcm_wrapper_x(node, run):
+    """the same, looked at while it is EXITING: the glue then finds the generator's frame with a helper extraction of its own
+    (only for generators that have an unwrap_context_generator hook), and the hooks below that are still hooks invoked
+    within the enclosing call"""
+    with FillMgr(node, run):
+        yield
+
+
+stackscope.unwrap_context_generator.register(gcm_wrapper_x, lambda frame, context: None)
+
+
 def slice_holder(node, run, how):
     """outermost frame of a slice of the RUNNING stack; its elaborate_frame hook is what runs the node's body"""
     here = sys._getframe()
@@ -243,16 +255,16 @@ def invoke(node, run):
                         raise
             else:
                 extract_child(Item(node, run), for_task=False)
-        elif kind == "gcm":
+        elif kind in ("gcm", "gcmx"):
             cur = outer if outer is not None else (True, False)
             if cur[0]:       # with_contexts off: the generator's frame is not analysed, its manager's hook never runs
                 pushed = outer is None
                 if pushed:
                     run.stack.append((True, False))
-                mgr = gcm_wrapper(node, run)
+                mgr = gcm_wrapper(node, run) if kind == "gcm" else gcm_wrapper_x(node, run)
                 mgr.__enter__()
                 try:
-                    fill_context(Context(obj=mgr, is_async=False))
+                    fill_context(Context(obj=mgr, is_async=False, is_exiting=(kind == "gcmx")))
                 finally:
                     if pushed:
                         run.stack.pop()
@@ -274,7 +286,9 @@ def invoke(node, run):
     except Boom:
         pass
     except Boom2:
-        if kind not in ("fill", "gcm"):
+        # (fill_context itself raises what a context hook raised - directly, or, for an exiting generator-based manager, as
+        # the error its helper extraction ran into)
+        if kind not in ("fill", "gcm", "gcmx"):
             run.bad.append(["ordinary_exception_escaped", kind])
     except Exception as ex:
         run.bad.append(["api_raised", kind, repr(ex)[:200]])
